@@ -60,7 +60,8 @@ func (cache *CacheLRU) GetTime(key string) (int64, error) {
 
 func (cache *CacheLRU) Flush() {
 	clear(cache.keys)
-	clear(cache.entries)
+	// clear() on a slice only zeroes its elements; the heap must become empty.
+	cache.entries = cache.entries[:0]
 }
 
 func (cache *CacheLRU) Len() int {
